@@ -17,22 +17,17 @@ type DateTimeStamp struct {
 var _ objecttypes.Value = DateTimeStamp{}
 
 func MapDateTimeStamp(lexicalForm string) (DateTimeStamp, error) {
-	lexicalForm = xsdutil.WhiteSpaceCollapse(lexicalForm)
-
-	for _, layout := range []string{
-		"2006-01-02T15:04:05Z07:00",
-		"2006-01-02T15:04:05.000000000Z07:00",
-	} {
-		parsed, err := time.Parse(layout, lexicalForm)
-		if err == nil {
-			return DateTimeStamp{
-				Time:   parsed,
-				Layout: layout,
-			}, nil
-		}
+	parsed, layout, ok := parseTimeLexicalForm(xsdutil.WhiteSpaceCollapse(lexicalForm), dateTimeStampLexicalRE,
+		"2006-01-02T15:04:05.999999999Z07:00",
+	)
+	if !ok {
+		return DateTimeStamp{}, rdf.ErrLiteralLexicalFormNotValid
 	}
 
-	return DateTimeStamp{}, rdf.ErrLiteralLexicalFormNotValid
+	return DateTimeStamp{
+		Time:   parsed,
+		Layout: layout,
+	}, nil
 }
 
 func (v DateTimeStamp) AsObjectValue() rdf.ObjectValue {
